@@ -63,7 +63,13 @@ def _np_zeros(ex, p, args, kw, node):
     return np_zeros(ex, p, args, kw, node)
 
 
+def _pairs(ex, p, args, kw, node):
+    from .loops import pairs_handler
+    return pairs_handler(ex, p, args, kw, node)
+
+
 STDLIB = {
+    "itertools.combinations": _pairs,
     "numpy.zeros": _np_zeros,
     "datetime.datetime.now": h_now,
     "uuid.NAMESPACE_DNS": h_namespace_dns,
